@@ -101,6 +101,9 @@ func llJudge(c llCase, rec *stat.Rec, where string, target, want []byte, wn int,
 		if why := ref.StrictValidate(dst[:gn], len(target)); why != "" {
 			return stat.Failf("C10/longlived/"+kind+"/not-strictly-valid/"+firstWords(why, 4), "%s: %s len(src)=%d n=%d: %s", where, c.Kind, len(target), gn, why)
 		}
+		if n, out, ok := refLibDecode(dst[:gn], len(target), nil); ok && (n != len(target) || !bytes.Equal(out, target)) {
+			return stat.Failf("C10/longlived/"+kind+"/reference-library-does-not-decode-the-block", "%s: %s len(src)=%d n=%d: LZ4_decompress_safe returns %d", where, c.Kind, len(target), gn, n)
+		}
 		if res := ref.DecodeBlock(dst[:gn], len(target), nil); !bytes.Equal(res.Out, target) {
 			return stat.Failf("C10/longlived/"+kind+"/strict-decode-differs", "%s: %s len(src)=%d n=%d: first difference at %d", where, c.Kind, len(target), gn, firstDiff(res.Out, target))
 		}
